@@ -101,6 +101,10 @@ func RunOne(t *testing.T, sc *Scenario, tr *vh.Tracer) Result {
 		for k := 1; k <= g.N; k++ {
 			succ[k-1], all[k-1], kinds[k-1] = g.SuccNF(k), g.SuccAll(k), g.Nodes[k].Kind
 		}
+		same := make([][]int, g.N) // nodes with identical bytes (a digest-keyed store cannot tell them apart)
+		for k := 1; k <= g.N; k++ {
+			same[k-1] = vh.Ints(append([]int(nil), g.ByDg[g.Descs[k].Digest.String()]...))
+		}
 		fl := [][]any{}
 		for _, f := range sc.Faults {
 			fl = append(fl, []any{f.Op, f.Node, f.Phase})
@@ -108,7 +112,7 @@ func RunOne(t *testing.T, sc *Scenario, tr *vh.Tracer) Result {
 		for _, f := range sc.CbErr {
 			fl = append(fl, []any{f.Op, f.Node, "cb"})
 		}
-		tr.Emit(map[string]any{"e": "init", "n": g.N, "succ": succ, "all": all, "kinds": kinds, "root": sc.Root,
+		tr.Emit(map[string]any{"e": "init", "n": g.N, "succ": succ, "all": all, "kinds": kinds, "same": same, "root": sc.Root,
 			"dst0": dw.has(), "c": sc.C, "api": sc.API, "depth": sc.Depth, "dstref": sc.DstRef,
 			"refdst": sc.RefDst, "maproot": sc.MapRoot, "faults": fl, "cancel": sc.Cancel, "cmode": sc.CMode,
 			"srckind": kindOr(sc.SrcKind), "dstkind": kindOr(sc.DstKind)})
